@@ -11,6 +11,6 @@ for d in sorted(glob.glob('/verif/seeded/*/')):
     rows.append((name,tgt,summary,'**yes**' if tgt in caught else '**NO**',' '.join(c for c in caught if c!=tgt) or '-', m.get('ran',{}).get('target_clause','')))
 print('| change | round | what it does — what it needs to manifest | caught by its own check (quick tier): clause | also caught by |')
 print('| --- | --- | --- | --- | --- |')
-rnd={'a':'1','b':'1','c':'2','d':'2','e':'3','f':'3','g':'4','h':'4','i':'5','j':'5'}
+rnd={'a':'1','b':'1','c':'2','d':'2','e':'3','f':'3','g':'4','h':'4','i':'5','j':'5','k':'6','l':'6'}
 for r in rows:
     print(f'| `{r[0]}` | {rnd.get(r[0][-1],"?")} | {r[2]} | {r[3]} {r[5]} | {r[4]} |')
